@@ -100,6 +100,14 @@ def session_cases(tier, rng):
                 vs = [rng.choice(["A", "S$", "T$", "I%", "P(1)", "R$(2)"]) for _ in range(rng.randint(1, 3))]
                 fields = [rng.choice(['"', '""', "a", "", " ", '"x', "1", "é", '" "', "x\"", '"""', "1e5", "&H"]) for _ in vs]
                 calls += [sess.E("INPUT " + ",".join(vs)), "R5000", "A5000:" + sess.hx(",".join(fields)), "A5000:" + sess.hx(",".join(["1"] * len(vs)))]
+            elif r < 0.52:
+                # editing commands whose operands are line numbers of the stored program (so that they act on part of it)
+                nums = [int(l.split()[0]) for l in prog if l.split()[0].isdigit()] or [10]
+                a, b = rng.choice(nums), rng.choice(nums)
+                cmd = rng.choice(["RENUM %d,%d" % (rng.choice([100, 5, a, 60000]), a), "RENUM %d,%d,%d" % (rng.choice([100, 1, 65000]), a, rng.choice([1, 10, 1000])),
+                                  "RENUM ,%d" % a, "DELETE %d-%d" % (min(a, b), max(a, b)), "DELETE %d-" % a, "DELETE -%d" % a, "LIST %d-%d" % (min(a, b), max(a, b)),
+                                  "LIST %d-" % a, "RUN %d" % a, "RESTORE %d" % a, "GOTO %d" % a])
+                calls += [sess.E(cmd), "R%d" % rng.choice([1, 7, 5000, 5000])]
             elif r < 0.6:
                 calls += [sess.E(rng.choice(DIRECT)), "R%d" % rng.choice([1, 7, 5000, 5000])]
             elif r < 0.72:
